@@ -13,6 +13,45 @@ from vf.ref import trace as RT
 from vf.checks.c02 import ray_bundle
 
 
+_IR = None
+
+
+def ir_plates():
+    """Thick plane-parallel plates of catalogue glasses traced in the near infrared, beyond the end of their extinction
+    tables but inside the range of their dispersion formulas (enumerated, not generated): up to 16 glasses, 3 wavelengths."""
+    global _IR
+    if _IR is None:
+        from vf.ref import materials as RM
+        from vf.gen.simple import spec as mk, surf
+        rows = RM.catalogue_rows()
+        names, cats = {}, set()
+        for r in rows:
+            names[r['name'].lower()] = names.get(r['name'].lower(), 0) + 1
+            cats.add(r['category_name'].lower())
+        picked = []
+        for r in rows:
+            if r['group'] != 'glass' or not r['filename'].startswith(('glass/schott/', 'glass/ohara/', 'glass/hoya/')):
+                continue
+            if names[r['name'].lower()] != 1 or r['name'].lower() in cats:
+                continue
+            e = RM.load_entry(r['filename'])
+            if e['n_defs'] != 1 or not e['n_kind'].startswith('formula') or e['k_tab'] is None or not e.get('range'):
+                continue
+            kx = np.asarray(e['k_tab'][0], dtype=float)
+            if float(np.max(kx)) < 1.0 and float(e['range'][1]) >= 2.0:
+                picked.append(dict(kind='glass', name=r['name'], file=r['filename']))
+        picked = picked[::max(1, len(picked) // 16)][:16]
+        cases = []
+        for g in picked:
+            for w in (1.06, 1.55, 2.0):
+                sp = mk([surf(R='inf', t=25.0, mat=g, stop=True), surf(R='inf', t=5.0)], ap=('EPD', 6.0), fields=(0.0, 3.0),
+                        wls=(w,))
+                cases.append(dict(spec=sp, rays=[[0.0, 0.0, 0.0], [1.0, 0.0, 0.5], [0.5, 0.3, -0.4], [0.0, 0.7, 0.0]], wl=0,
+                                  analysis=False, ir_plate=True))
+        _IR = cases
+    return _IR
+
+
 class C16(Check):
     pid = 'C16'
     title = 'Ray intensity is never created and is removed exactly as specified'
@@ -28,6 +67,9 @@ class C16(Check):
 
     def budget(self, tier):
         return (300, 8) if tier == 'quick' else (3000, 16)
+
+    def fixed_cases(self, tier):
+        return ir_plates()
 
     def strategy(self, tier):
         main = st.fixed_dictionaries(dict(spec=GL.lens_spec('intensity'), rays=ray_bundle(), wl=st.integers(0, 3),
@@ -45,7 +87,11 @@ class C16(Check):
 
     def check(self, case, out):
         spec = case['spec']
-        out.cls(*GL.spec_classes(spec))
+        if case.get('ir_plate'):
+            out.cls('infrared_plate_beyond_the_k_table')
+            out.nt()
+        else:
+            out.cls(*GL.spec_classes(spec))
         # optionally: query the lens, edit it through the public setters, and only then trace; the model below is the
         # model of the prescription the Optic has now
         o, spec, edited = build_with_history(spec, case.get('edit'), warm_all)
@@ -127,6 +173,18 @@ class C16(Check):
                     out.expect('spot_intensity_equals_trace',
                                np.array_equal(np.asarray(sp.data[fi][0][2]), np.asarray(o.surface_group.intensity[-1, :]),
                                               equal_nan=True), field=fi)
+                # ray fans: the intensities reported for the x fan and for the y fan are those of these fans
+                from optiland.analysis import RayFan
+                npt = 5 + 2 * (len(rays) % 3)
+                rf = RayFan(o, num_points=npt)
+                for fld in rf.fields[:2]:
+                    d = rf.data['%s' % (fld,)]['%s' % (w0[0],)]
+                    for key, dist in (('intensity_x', 'line_x'), ('intensity_y', 'line_y')):
+                        o.trace(fld[0], fld[1], w0[0], npt, dist)
+                        out.expect('rayfan_intensity_equals_trace',
+                                   np.array_equal(np.asarray(d[key], dtype=float),
+                                                  np.asarray(o.surface_group.intensity[-1, :], dtype=float), equal_nan=True),
+                                   fan=key, field=list(map(float, fld)))
             except ValueError as e:
                 if 'Chebyshev' not in str(e):
                     raise
